@@ -332,6 +332,10 @@ pub open spec fn header_policy(hdrs0: Seq<Header>, decl0: Option<usize>, hh: Hea
             assert(transfer_encoding == Some(TransferEncoding::Chunked) && !head_only && !no_body_status(status0) ==> encoder_made() && copied_once());
             assert(transfer_encoding == Some(TransferEncoding::Identity) && !head_only && !no_body_status(status0) && data_length is Some && data_length->Some_0 >= 1 ==> copied_once());
         }
+//@before? 1 Encoder :: new
+                    // O-NO-BODY-NO-ENCODER (C04): the chunk encoder writes the terminating chunk when it is dropped, whatever was
+                    // written to it: it may only come into being when the response is allowed a body
+                    proof { assert(!head_only && !no_body_status(status0) && upgrade is None); }   // [C04]
 //@before? 1 io::copy
                     // ... and what is copied is exactly the application's body, through the chunk encoder
                     proof { assert(!head_only && !no_body_status(status0) && upgrade is None); assert(dyn_stream(&reader) == body0); }   // [C04]
